@@ -57,7 +57,9 @@ def scenarios(tier, seed):
                 fixed = []
                 if len(nodes) == 4 and tier == "quick":
                     fixed = [nodes[(k + 1) % 4], nodes[(k + 2) % 4]]
-                out.append(dict(family=f"map/{engine}/{sname}", kind="bn", nodes=nodes, parents=parents, card=card, q=q, ev=ev2, virt=virt,
+                lat = [x for x in nodes if x not in q and x not in ev2 and x != virt]
+                lat = lat[: 1 + k % 2] if (k % 3 == 1 and lat) else []
+                out.append(dict(latents=lat, family=f"map/{engine}/{sname}", kind="bn", nodes=nodes, parents=parents, card=card, q=q, ev=ev2, virt=virt,
                                 fixed_cpds=fixed, fixed_seed=k, budget_s=45,
                                 engine=engine, order=ORDERS[k % len(ORDERS)], states=C.STATE_STYLES[k % len(C.STATE_STYLES)],
                                 names="str" if virt else list(C.NAME_STYLES)[k % 4], hashseed=k % 2,
